@@ -850,11 +850,99 @@ def run_all(tier, jobs):
         r["counters"][f"{name}/states"] = r["states"]
         r["counters"][f"{name}/transitions"] = r["transitions"]
         r["notes"] = [f"[{name}] {n}" for n in r["notes"]]
-    return merge([main, moves])
+    chains = _run_chains(tier)
+    chains["counters"] = {f"alias-chains/{k}": v for k, v in chains["counters"].items()}
+    return merge([main, moves, chains])
+
+
+# ---- family CH: chains of aliases of aliases ------------------------------------------------------------------------------------------
+# lib.x is a function; m1.x -> lib.x, m2.x -> m1.x, ... up to four links; any subset of the links is resolved (one hop each, in index order) before lib.x is REPLACED through
+# the tree-building API by a function, a class, an alias that resolves elsewhere, or a dangling alias.  Clause by clause from the property: every link follows the replacement
+# (dereferencing reaches the new object / reports the alias error of the dangling replacement, never the old function), every resolved link is listed among its target's aliases
+# under its current path, lookups agree, nothing else is raised.
+def _run_chains(tier):
+    boot.boot()
+    import griffe
+
+    from mc.core.driver import Acc
+
+    acc = Acc()
+    maxk = 4
+    for k in range(1, maxk + 1):
+        for mask in range(2 ** k):
+            for vkind in ("function", "class", "alias-elsewhere", "alias-dangling"):
+                for api in ("name", "dotted", "tuple"):
+                    coll = griffe.ModulesCollection()
+                    lib = griffe.Module("lib")
+                    coll.set_member("lib", lib)
+                    old = griffe.Function("x")
+                    lib.set_member("x", old)
+                    other = griffe.Module("other")
+                    coll.set_member("other", other)
+                    y = griffe.Function("y")
+                    other.set_member("y", y)
+                    links = []
+                    prev = "lib.x"
+                    for i in range(1, k + 1):
+                        m = griffe.Module(f"m{i}")
+                        coll.set_member(f"m{i}", m)
+                        a = griffe.Alias("x", prev)
+                        m.set_member("x", a)
+                        links.append(a)
+                        prev = f"m{i}.x"
+                    for i in range(k):
+                        if mask >> i & 1:
+                            links[i].resolve_target()
+                    new = {"function": lambda: griffe.Function("x"), "class": lambda: griffe.Class("x"), "alias-elsewhere": lambda: griffe.Alias("x", "other.y"),
+                           "alias-dangling": lambda: griffe.Alias("x", "nowhere.z")}[vkind]()
+                    case = {"history": [f"CH: chain of {k}", f"resolved links {[i + 1 for i in range(k) if mask >> i & 1]}", f"replace lib.x by {vkind} via set_member({api})"]}
+                    probs = []
+                    try:
+                        if api == "name":
+                            lib.set_member("x", new)
+                        elif api == "dotted":
+                            coll.set_member("lib.x", new)
+                        else:
+                            coll.set_member(("lib", "x"), new)
+                    except Exception as e:  # noqa: BLE001
+                        probs.append((f"CH-raise/{type(e).__name__}", f"set_member raised {e!r}"))
+                    final = {"function": new, "class": new, "alias-elsewhere": y, "alias-dangling": None}[vkind]
+                    if not probs:
+                        if coll["lib.x"] is not new or coll.get_member(("lib", "x")) is not new or new.parent is not lib:
+                            probs.append(("CH-tree", "the replacement is not what lookups by dotted path / tuple return, or its parent is not its container"))
+                        for i, a in enumerate(links):
+                            try:
+                                ft = a.final_target
+                                got = "old" if ft is old else "new" if ft is final else "other"
+                            except (griffe.AliasResolutionError, griffe.CyclicAliasError) as e:
+                                got = type(e).__name__
+                            except Exception as e:  # noqa: BLE001
+                                got = "RAISE:" + type(e).__name__
+                            want = "AliasResolutionError" if final is None else "new"
+                            if got != want:
+                                probs.append((f"CH-follow/{vkind}/{'resolved' if mask >> i & 1 else 'unresolved'}-link/{min(i + 1, 3)}-hops", f"m{i + 1}.x after the replacement: {got}, expected {want}"))
+                            elif final is not None and a._target is not None:
+                                listed = final.aliases.get(a.path)
+                                if listed is not a:
+                                    probs.append((f"CH-not-listed/{vkind}/{min(i + 1, 3)}-hops", f"m{i + 1}.x reaches {final.path} and is resolved, but is not listed there under {a.path!r} (listed: {sorted(final.aliases)})"))
+                            if final is None and a._target is not None and not a._target.is_alias:
+                                probs.append((f"CH-partial/{vkind}/{min(i + 1, 3)}-hops", f"m{i + 1}.x stays resolved to an object although the chain now ends at a dangling alias"))
+                    acc.states += 1
+                    acc.transitions += 1 + bin(mask).count("1")
+                    acc.traces += 1
+                    acc.case(case, outcome="CH:" + ("ok" if not probs else probs[0][0].split("/")[0]), nontrivial=k >= 2)
+                    acc.observe([p_[0] for p_ in probs])
+                    for key, summary in probs:
+                        acc.violation(key, f"chain of {k}, resolved links {[i + 1 for i in range(k) if mask >> i & 1]}, lib.x replaced by {vkind} ({api}): {summary}", case, None, size=k * 10 + bin(mask).count("1"))
+    acc.notes.append(f"[alias-chains] chains up to {maxk} links x every subset of resolved links x 4 replacement kinds x 3 key forms")
+    return acc.result()
 
 
 def replay(case):
     boot.boot()
+    if case["history"] and case["history"][0].startswith("CH: "):
+        res = _run_chains("quick")
+        return [(k, v["summary"], v["detail"]) for k, v in res["violations"].items()]
     if case["history"] and case["history"][0].startswith("M: "):
         from mc.checks import c16m
 
